@@ -60,7 +60,8 @@ func resName(err error, endErr error) string {
 }
 
 // dr  LIMIT|-  STATE0  h(stream)  SEGS|-  SIZES  eof|err
-//   -> h(out)/RES,...  h(rest)  STATEf  Nf|-
+//
+//	-> h(out)/RES,...  h(rest)  STATEf  Nf|-
 func probeDR(f []string) string {
 	limited := f[1] != "-"
 	var n int64
